@@ -201,7 +201,7 @@ theorem visit_sim (sc : Scripts) (tm : Nat) : ∀ (fuel : Nat) (w : World), Whee
   | succ fuel ih =>
     intro w h h0 htm ⟨cop, rest, hl, hz⟩ hs
     unfold visit
-    simp only [hl]
+    simp only [hl, tie_nextDue]
     have hcum : cum 0 (w.slots tm) = (0, cop.c) :: cum 0 rest := by rw [hl]; exact cum_pop_zero _ _ hz
     have h1 : StepOK w (setSlot w tm rest) :=
       StepOK.setSlot_sublist h tm rest (by rw [hcum]; exact List.sublist_cons_self _ _)
